@@ -1,9 +1,9 @@
 """Validate the virtual loop against the real ones (DESIGN 2.6).
 
-For every program of an engine-A family the *default* schedule (every environment action is
-injected when the program is idle, in order) is executed on the virtual loop and on the real
-asyncio selector loop (stock and eager task factory) and uvloop, with a driver task that injects
-the actions whenever all program tasks are blocked.  The time- and iteration-free projections of
+Every program of an engine-A family is executed, under one and the same driver task that injects
+the environment actions in order whenever all program tasks have been blocked for a few
+iterations, on the virtual loop (explorer switched off) and on the real asyncio selector loop
+(stock and eager task factory) and uvloop.  The time- and iteration-free projections of
 the event logs must be identical; a difference means the loop model is wrong (HARNESS-ERROR),
 it is never reported as a property violation."""
 
@@ -83,6 +83,14 @@ def run_real(program, loopkind, salt=1):
             import uvloop
             lp = uvloop.new_event_loop()
             lp.set_task_factory(_plain_factory)
+        elif loopkind.startswith("vloop"):
+            # the virtual loop under the *same* driver task (no explorer decisions): what is
+            # compared is the loop model itself - batching, FIFO order, callbacks, task steps
+            from .vloop import Controller, VLoop
+            c = Controller()
+            c.passthrough = True
+            lp = VLoop(c)
+            lp.set_task_factory(_eager_factory if loopkind.endswith("eager") else _plain_factory)
         else:
             lp = asyncio.new_event_loop()
             lp.set_task_factory(_eager_factory if loopkind == "asyncio-eager" else _plain_factory)
@@ -169,19 +177,17 @@ def conform_program(args):
     program = progs[idx]
     if "custom" in program or has_timers(program):
         return idx, 0, []
-    ex = execute(dsl.build(program), ())
-    ref = projection(ex.log)
+    vlog, vres = run_real(program, "vloop")
+    velog, veres = run_real(program, "vloop-eager")
     n = 0
     bad = []
     for lk in loops:
-        cfg_ex = ex
-        if lk == "asyncio-eager":
-            cfg_ex = execute(dsl.build(program), (), eager=True)
+        ref_log, ref_res = (velog, veres) if lk == "asyncio-eager" else (vlog, vres)
         log, res = run_real(program, lk)
         n += 1
         got = projection(log)
-        want = projection(cfg_ex.log)
-        if res["stuck"] != (cfg_ex.status == "deadlock") or (not res["stuck"] and got != want):
+        want = projection(ref_log)
+        if res["stuck"] != ref_res["stuck"] or (not res["stuck"] and got != want):
             k = next((i for i, (a, b) in enumerate(zip(got, want)) if a != b),
                      min(len(got), len(want)))
             bad.append(f"program {idx} ({program.get('label')}) on {lk}: log differs from the "
